@@ -32,7 +32,7 @@ let eval (input : Sx.t) (obs : Sx.t) : Sx.t list * bool * bool * string =
        | None -> [])
     @ (match Sx.field_opt "raw" input with
        | Some x -> (match Sx.args x with
-           | [raw; name] -> let v = Query.query_get (str raw) (str name) in   (* net/url.ParseQuery, first value of the name *)
+           | raw :: name :: _ -> let v = Query.query_get (str raw) (str name) in   (* net/url.ParseQuery, first value of the name *)
                let dl = (match dstr with Some d -> Some [d; d] | None -> None) in
                [t "raw" [sx_str (query v dstr); sx_z (query_int v dint); sx_str (query_trim v dstr)];
                 t "rawl" (List.map sx_str (Query.query_strings (str raw) (str name) dl))]
